@@ -251,6 +251,24 @@ def build(repo):
         (self.cache@.len() > 0 && self.cache@[0].num().0 <= n.0 && n.0 < self.queued.nxt()) ==> r.is_some(),
         self.readable(n.0 as int) ==> r.is_some(),
 """)
+    # the persistence loop of EngineManagerRunner::run picks the block it hands to durable storage with this closure
+    U.raw("""
+// R-std: Ord::max on BlockNumber (derive(Ord) on a u64 newtype, A1)
+#[verifier::external_body]
+pub fn bn_max(a: BlockNumber, b: BlockNumber) -> (r: BlockNumber) ensures r.0 == (if a.0 >= b.0 { a.0 } else { b.0 }) { unimplemented!() }
+""", label="prelude persist loop")
+    U.lift_closure(F_MGR, "impl EngineManagerRunner :: fn run", "|block_store|", "persist_pick",
+                   "(block_store: &BlockStore, queue_next: BlockNumber) -> (r: Option<Block>)", nth=1, of=2,
+                   subs=[("queue_next.max($A)", "bn_max(queue_next, $A)   /* R-std */")],
+                   spec="""
+    requires block_store.wf(),
+    ensures
+        // "each submitted block directly follows the previously submitted one (queue_next = its number + 1) or the current durable head"
+        r matches Some(b) ==> b.num().0 == (if queue_next.0 >= block_store.persisted.nxt() { queue_next.0 as int } else { block_store.persisted.nxt() })
+            && block_store.readable(b.num().0 as int),
+        // and it is handed over as soon as it is available
+        block_store.readable(if queue_next.0 >= block_store.persisted.nxt() { queue_next.0 as int } else { block_store.persisted.nxt() }) ==> r.is_some(),
+""")
     U.fn(F_BS, "impl BlockStore :: fn truncate_cache", wrap="impl BlockStore",
          loops={0: dict(prefix="while self.cache.len() > Self::CACHE_CAPACITY", inv="""
             self.wf(),
